@@ -24,6 +24,10 @@ import (
 
 func main() {
 	slog.SetDefault(slog.New(slog.NewTextHandler(io.Discard, nil)))
+	if p := os.Getenv("C17_L1_CHILD"); p != "" {
+		l1ChildMain(p)
+		return
+	}
 	lib.Main("C17", runC17)
 }
 
@@ -989,6 +993,21 @@ func runC17(c *lib.Ctx) error {
 	}
 	defer os.RemoveAll(work)
 	if c.Replay != "" {
+		if probe, err := lib.LoadReplayInput[map[string]any](c.Replay); err == nil && probe["kind"] == float64(4) {
+			sc, err := lib.LoadReplayInput[l1Scenario](c.Replay)
+			if err != nil {
+				return err
+			}
+			outs, err := l1RunAll(c, []l1Scenario{sc})
+			if err != nil {
+				return err
+			}
+			for i, o := range outs[0] {
+				fmt.Printf("  upload %d %+v: status %d pub %v files %v died %q\n", i, sc.Ups[i], o.Status, o.Pub, o.Files, o.Died)
+			}
+			l1Oracle(c, "replay", sc, outs[0])
+			return nil
+		}
 		in, err := lib.LoadReplayInput[c17in](c.Replay)
 		if err != nil {
 			return err
@@ -1060,8 +1079,29 @@ func runC17(c *lib.Ctx) error {
 			c.Sample(map[string]any{"input": in, "operations_run": len(out.obs), "last_observation": last.L, "panic": last.Panic})
 		}
 	}
+	// L1: the same model against the receiver's HTTP handler, in child processes
+	scs := l1Generate(c, rng)
+	l1outs, err := l1RunAll(c, scs)
+	if err != nil {
+		return err
+	}
+	for k, sc := range scs {
+		i := len(ins) + k
+		id := fmt.Sprintf("%d", i)
+		c.Res.Inputs[id] = sc
+		c.Count("kind4:" + sc.Gen)
+		l1Oracle(c, id, sc, l1outs[k])
+		term := l1CoqCase(i, sc, l1outs[k])
+		terms = append(terms, term)
+		curBytes += len(term)
+		nops += len(l1outs[k])
+		distinct[fmt.Sprintf("4/%d/%v/%v", sc.Tsbd, sc.Tracks, sc.Ups)] = true
+		if curBytes >= shardBytes || len(terms) >= 400 {
+			flush()
+		}
+	}
 	flush()
-	c.Res.Evaluations = len(ins)
+	c.Res.Evaluations = len(ins) + len(scs)
 	c.Res.DistinctNontrivial = len(distinct)
 	c.Res.Notes = append(c.Res.Notes, fmt.Sprintf("%d operations executed on the real structs and compared state by state with the model", nops))
 	c.Res.Rule = "operation sequences on the real seqCounters (kind0), segDataBuffer (kind1), segmentTimelineGenerator (kind2: add/start/drop/resize/generate with MPD read back from disk) and channel.receivedSegData with real init segments (kind3): exhaustive short sequences, all interleavings of T<=3 tracks x M<=4 segments with and without per-track order (sampled where > 400), gaps, duplicates, late tracks, jumps >= window, windows 2..8 and timeShiftBufferDepth 1..90 s, several segment durations; distinct = distinct (kind, window, tracks, op list); non-trivial = at least 3 operations executed"
